@@ -11,6 +11,7 @@ import (
 	goat "github.com/avos-io/goat"
 	"google.golang.org/grpc/codes"
 	"google.golang.org/grpc/status"
+	"google.golang.org/protobuf/types/known/wrapperspb"
 	"pgregory.net/rapid"
 	"verifharness/kit"
 )
@@ -18,6 +19,8 @@ import (
 // ---- C11: an abandoned stream never wedges its connection -------------------
 
 type C11Case struct {
+	// Stats: do-nothing stats handlers on server and client (kit.Topo.Stats)
+	Stats  bool   `json:"stats,omitempty"`
 	Mode   string `json:"mode"` // handler-early | caller-cancel | client-extra | server-extra
 	Kind   int    `json:"kind"`
 	K      int    `json:"k"`       // handler-early: messages the handler consumes
@@ -30,6 +33,9 @@ type C11Case struct {
 	Ser    bool   `json:"ser"`
 	// Deadline: the abandoned stream is opened with a (far) caller deadline
 	Deadline bool `json:"deadline,omitempty"`
+	// SendFail (caller-cancel, bidi): instead of cancelling, the caller's last act is a SendMsg that fails to encode
+	// its message; it then walks away from the stream without cancelling or reading
+	SendFail bool `json:"send_fail,omitempty"`
 }
 
 func genC11(t *rapid.T) C11Case {
@@ -37,6 +43,7 @@ func genC11(t *rapid.T) C11Case {
 	c.Kind = rapid.SampledFrom(streamKinds).Draw(t, "kind")
 	c.By = rapid.IntRange(0, 4).Draw(t, "by")
 	c.Ser = rapid.Bool().Draw(t, "ser")
+	c.Stats = rapid.IntRange(0, 3).Draw(t, "stats") == 0
 	c.Deadline = rapid.Bool().Draw(t, "deadline")
 	switch c.Mode {
 	case "handler-early":
@@ -47,6 +54,7 @@ func genC11(t *rapid.T) C11Case {
 	case "caller-cancel":
 		c.Kind = rapid.SampledFrom([]int{kit.KindServer, kit.KindBidi}).Draw(t, "skind")
 		c.M = rapid.IntRange(0, 8).Draw(t, "m")
+		c.SendFail = c.Kind == kit.KindBidi && rapid.IntRange(0, 2).Draw(t, "send_fail") == 0
 	case "client-extra":
 		c.Extra = rapid.IntRange(1, 6).Draw(t, "extra")
 		c.Shape = rapid.SampledFrom([]string{"bodies-after-halfclose", "bodies-after-return", "trailers-after-halfclose", "mixed"}).Draw(t, "shape")
@@ -194,7 +202,7 @@ func execC11(t *testing.T, c C11Case) (v Verdict) {
 
 		switch c.Mode {
 		case "handler-early", "caller-cancel":
-			w := kit.NewWorld(kit.Topo{Kind: "direct", Serialize: c.Ser, Clients: 1}, svc, nil, nil)
+			w := kit.NewWorld(kit.Topo{Kind: "direct", Serialize: c.Ser, Clients: 1, Stats: c.Stats}, svc, nil, nil)
 			cc := w.Conn(0)
 			ctx, cancel := context.WithCancel(context.Background())
 			defer cancel()
@@ -244,7 +252,14 @@ func execC11(t *testing.T, c C11Case) (v Verdict) {
 				// dispatch is parked on the unread stream it holds the registry mutex,
 				// and callers queueing for a mutex are never "durably blocked".
 				startBystanders(cc, &wg)
-				cancel()
+				if c.SendFail {
+					// a string field with invalid UTF-8 cannot be marshalled: the send fails before anything is written
+					if err := cs.SendMsg(&wrapperspb.StringValue{Value: "\xff\xfe"}); err == nil {
+						v.failf("harness: the unencodable message was sent")
+					}
+				} else {
+					cancel()
+				}
 				kit.Settle()
 				go func() {
 					for i := 0; i < c.M+2; i++ {
@@ -271,7 +286,7 @@ func execC11(t *testing.T, c C11Case) (v Verdict) {
 
 		case "client-extra":
 			// scripted caller against a goat server
-			w := kit.NewWorld(kit.Topo{Kind: "direct", Serialize: c.Ser, Clients: 1, Raw: true}, svc, nil, nil)
+			w := kit.NewWorld(kit.Topo{Kind: "direct", Serialize: c.Ser, Clients: 1, Raw: true, Stats: c.Stats}, svc, nil, nil)
 			raw := w.Links[0].A // we drive this end by hand
 			method := kit.FullMethod("t")
 			send := func(e kit.EnvSpec) {
@@ -452,7 +467,7 @@ func execC11(t *testing.T, c C11Case) (v Verdict) {
 		nt = nt || c.N-c.K >= 2
 	}
 	if c.Mode == "caller-cancel" {
-		labels = append(labels, fmt.Sprintf("unread_responses=%d", c.M))
+		labels = append(labels, fmt.Sprintf("unread_responses=%d", c.M), fmt.Sprintf("send_fail=%v", c.SendFail))
 		nt = nt || c.M >= 3
 	}
 	if c.Extra > 0 {
